@@ -245,7 +245,32 @@ def serializers(ctx) -> None:
     ctx.check(len(regs) == 1 and bool(rets) and all(graph.dominates(regs[0], r) for r in rets), 'R-PICKLE', new, 'every class produced by the wrapping metaclass has its pickling reducer registered (copyreg.pickle dominates every return)', new.node, key='Class.__new__:copyreg')
 
 
+def decorated_state(ctx) -> None:
+    """Function-decorated stateful actors, statement by statement: an untrained actor exports the *empty* state (b''), an
+    empty state is ignored on import (the actor stays untrained), applying untrained is refused, training continues from the
+    current state and stores what the train function returned."""
+    prog = ctx.prog
+    sa = f'{WACTOR}:Stateful.Actor'
+    U = shared.stmt_under
+    g = prog.func(f'{sa}.get_state')
+    U(ctx, 'C13.decorated', g, "return b''", [('self._state is None', True)], 'untrained -> the empty state', 'get_state:empty', inlined=False, siblings=False)
+    U(ctx, 'C13.decorated', g, 'return cloudpickle.dumps(self._state)', [('self._state is None', False)], 'trained -> the serialised state', 'get_state:dump', inlined=False)
+    st = prog.func(f'{sa}.set_state')
+    v = st.param_names[1]
+    U(ctx, 'C13.decorated', st, f'self._state = cloudpickle.loads({v})', [(v, True)], 'only a non-empty state is imported', 'set_state:nonempty', inlined=False, siblings=False)
+    ap = prog.func(f'{sa}.apply')
+    rs = [r for r in core.walk_local(ap.node) if isinstance(r, ast.Raise)]
+    ctx.check(len(rs) == 1 and cfg.cguards(rs[0], ap.node) == [('self._state is None', True)], 'C13.decorated', ap, 'applying an untrained actor is refused', rs[0] if rs else ap.node, key='apply:untrained')
+    tr = prog.func(f'{sa}.train')
+    f, l = tr.param_names[1:3]
+    U(ctx, 'C13.decorated', tr, f'state = self.Train(self._state, {f}, {l}, **self._kwargs)', [], 'training starts from the current state (incremental), with the builder parameters', 'train:call', inlined=False, siblings=False)
+    U(ctx, 'C13.decorated', tr, 'self._state = state', [], 'and keeps whatever the train function returned', 'train:store', inlined=False, siblings=False)
+    init = prog.func(f'{sa}.__init__')
+    U(ctx, 'C13.decorated', init, 'self._state: typing.Optional[State] = None', [], 'a fresh actor is untrained', 'init:untrained', inlined=False, siblings=False)
+
+
 def run(ctx) -> None:
+    decorated_state(ctx)
     serializers(ctx)
     bracket(ctx)
     empty_state(ctx)
